@@ -4,12 +4,12 @@ go 1.23
 
 require (
 	github.com/google/uuid v1.3.0
+	github.com/gorilla/websocket v1.4.2
 	github.com/takenet/lime-go v0.0.0
 	golang.org/x/tools v0.29.0
 )
 
 require (
-	github.com/gorilla/websocket v1.4.2 // indirect
 	go.uber.org/atomic v1.9.0 // indirect
 	go.uber.org/multierr v1.8.0 // indirect
 	golang.org/x/mod v0.22.0 // indirect
